@@ -6,6 +6,8 @@ use crossterm::{cursor, execute, terminal};
 
 use super::{Read, INITIAL_BUFFER_CAPACITY, PROMPT};
 use crate::dprintln;
+#[cfg(lace_verif)]
+use crate::verif_println as println;
 use crate::{
     output::{debugger_colors, Output},
     term::{self, Key},
@@ -89,6 +91,14 @@ impl Terminal {
     fn print_prompt(&mut self) {
         // Don't use `dprint(ln)!` in this function: we already have a handle to `stderr` and want
         // to have control over conditions and attributes for printing.
+
+        #[cfg(lace_verif)]
+        if crate::verif::keys_scripted() {
+            self.verif_observe();
+            if !crate::verif::keys_draw() {
+                return;
+            }
+        }
 
         // Equivalent to `write!(... "\r")`
         execute!(
@@ -484,4 +494,50 @@ fn count_chars_bytes(string: &str, char_index: usize) -> (usize, usize) {
         char_count += 1;
     }
     (byte_index, char_count)
+}
+
+/// Verification access (only with `--cfg lace_verif`): an editor without a history file, driven
+/// through the real `read` by keys scripted with `crate::verif::script_keys`.
+#[cfg(lace_verif)]
+impl Terminal {
+    /// Terminal with the given history and no history file.
+    pub fn verif_new(history: Vec<String>) -> Self {
+        let index = history.len();
+        Self {
+            stderr: io::stderr(),
+            buffer: String::with_capacity(INITIAL_BUFFER_CAPACITY),
+            cursor: 0,
+            visible_cursor: 0,
+            history: TerminalHistory {
+                list: history,
+                index,
+                file: None,
+            },
+        }
+    }
+
+    /// The real `Read::read` of the terminal.
+    pub fn verif_read(&mut self) -> Option<String> {
+        <Self as Read>::read(self).map(str::to_owned)
+    }
+
+    /// `true` while commands of an already submitted line remain to be handed out.
+    pub fn verif_line_pending(&self) -> bool {
+        self.cursor != 0
+    }
+
+    pub fn verif_history(&self) -> &[String] {
+        &self.history.list
+    }
+
+    /// Record what the prompt is about to show (called once before every key is read).
+    fn verif_observe(&self) {
+        crate::verif::edit_observe(crate::verif::EditObs {
+            current: self.get_current().to_owned(),
+            buffer: self.buffer.clone(),
+            cursor: self.visible_cursor,
+            index: self.history.index,
+            history_len: self.history.list.len(),
+        });
+    }
 }
